@@ -1,5 +1,6 @@
 //! C04: rank/select answers match the bit-sequence definition in every implementation.
-//! M+S cells (Coq mechanism model): RankSelectSE512 (all four option combinations), RankSelectFewOne.
+//! M+S cells (Coq mechanism model): RankSelectSE512 (all four option combinations), RankSelectFewOne,
+//! RankSelectInterleaved256 (rank1/rank0/get).
 //! S-only cells: interleaved-256 (+ performance/bulk entry points), SE256, simple, few-zero, mixed (both
 //! dims), trivial, adaptive, multidim, BitVector::rank1/count_ones, bulk_*_simd.
 use crate::util::*;
@@ -221,11 +222,14 @@ fn one_vector(cx: &mut Ctx, bits: &[bool], mode: u32, r: &mut Rng, to_coq: bool)
         let res = guarded(|| {
             let rs = RankSelectSE512::with_options(make_bv(bits, 0), combo.0, combo.1).unwrap();
             let fw = RankSelectFewOne::from_bitvector(&make_bv(bits, 0)).unwrap();
+            let il = RankSelectInterleaved256::new(make_bv(bits, 0)).unwrap();
             let mut qs: Vec<(u32, usize)> = vec![];
             let mut sample: Vec<usize> = vec![0, n, n / 2];
             for b in [63usize, 64, 65, 511, 512, 513, 1023, 1024, 1025] { if b <= n { sample.push(b); } }
             for _ in 0..6 { sample.push(Rng::new(n as u64 + qs.len() as u64).below(n as u64 + 1) as usize); }
-            for &p in &sample { qs.push((0, p)); qs.push((1, p)); qs.push((5, p)); if p < n { qs.push((4, p)); qs.push((7, p)); } }
+            for b in [255usize, 256, 257] { if b <= n { sample.push(b); } }
+            for &p in &sample { qs.push((0, p)); qs.push((1, p)); qs.push((5, p)); qs.push((8, p)); qs.push((9, p)); qs.push((10, p)); if p < n { qs.push((4, p)); qs.push((7, p)); } }
+            qs.push((8, n + 1)); qs.push((9, n + 77)); qs.push((8, n + 300));
             let no = o.ones.len(); let nz = o.zeros.len();
             for k in [0usize, 1, no / 2, no.saturating_sub(1), no, no + 1] { qs.push((2, k)); qs.push((6, k)); }
             for k in [0usize, 1, nz / 2, nz.saturating_sub(1), nz] { qs.push((3, k)); }
@@ -235,6 +239,7 @@ fn one_vector(cx: &mut Ctx, bits: &[bool], mode: u32, r: &mut Rng, to_coq: bool)
                 2 => rs.select1(a).map(|x| x as i128).unwrap_or(-1), 3 => rs.select0(a).map(|x| x as i128).unwrap_or(-1),
                 4 => rs.get(a).map(|b| b as i128).unwrap_or(-1),
                 5 => fw.rank1(a) as i128, 6 => fw.select1(a).map(|x| x as i128).unwrap_or(-1),
+                8 => il.rank1(a) as i128, 9 => il.rank0(a) as i128, 10 => il.get(a).map(|b| b as i128).unwrap_or(-1),
                 _ => fw.get(a).map(|b| b as i128).unwrap_or(-1) }).collect();
             (qs, ans)
         });
